@@ -137,6 +137,10 @@ def _generate(c):
     if s.kind == "clf" and ch.boolean("w", 0.6, "rs"):
         s.random_state = ch.integer("w", 0, 50, "rs-val")
     s.frame = ch.boolean("w", 0.2, "frame")
+    # targets / weights given as pandas Series whose index is not 0..n-1 (rows
+    # of a shuffled or filtered frame): positions count, not labels
+    s.series = ch.boolean("w", 0.2, "series")
+    s.series_index = (rs.permutation(s.n) * 3 + 7) if s.series else None
     # query batch: some training rows + new rows from a wider range
     m_old = ch.integer("w", 1, min(s.n, 10), "m_old")
     m_new = ch.integer("w", 0, 12, "m_new")
@@ -228,10 +232,18 @@ def _execute(c, s, n_jobs, seen):
         c.entropy = E.Entropy("pinned")
         c.entropy.os_by_task = s.os_base
         numpy.random.seed(s.g % (2**32 - 1))
+    yin, win = s.y, s.w
+    if s.series:
+        import pandas
+
+        yin = pandas.Series(s.y, index=s.series_index)
+        win = None if s.w is None else pandas.Series(s.w, index=s.series_index)
+        if s.frame:
+            Xin = Xin.set_axis(s.series_index, axis=0)
     if s.w is None:
-        ok, r = U.sut(c, "fit", model.fit, Xin, s.y)
+        ok, r = U.sut(c, "fit", model.fit, Xin, yin)
     else:
-        ok, r = U.sut(c, "fit", model.fit, Xin, s.y, sample_weight=s.w)
+        ok, r = U.sut(c, "fit", model.fit, Xin, yin, sample_weight=win)
     if not ok:
         _viol(c, s, "raised", ("fit", type(r).__name__, U.where_raised(r), "labels=" + s.ltype), "fit raised %s on valid data (n_jobs=%r)" % (U.short_exc(r), n_jobs), seen)
         return None
@@ -420,6 +432,7 @@ def run(c, index, tier):
         "query_rows": int(s.Xq.shape[0]),
         "data_seed": s.data_seed,
         "fitted_before": s.prefit,
+        "y_and_weights_as_series": s.series,
         "schedules": [],
     }
     c.signature = [c.scenario["estimator"], s.binner_kind, s.peer_name, s.ltype, s.w is not None, s.random_state is None, s.n // 8, s.d]
